@@ -37,7 +37,7 @@ func init() {
 			"(R2) every failing exit of the send loop is reported (C03.R6) and an encode failure aborts the loop with the error; (R3) once a non-zero frame length was read the reader never re-arms without consuming exactly that many bytes — paths that do not consume kill the connection actor; (R4) the retry limit is clamped to >= 0, the retry loop exits on it, nothing reachable from a retry iteration writes the attempt counter, a stopped system aborts; " +
 			"(R5) a failed write / closed connection clears the cached connection before the retry, and non-EOF read errors kill the connection actor without re-arming; (R6) an undecodable frame re-arms the reader; (R7) because the clean-EOF exit leaves the old connection actor registered, the name under which a connection actor is spawned contains a per-socket component, so a re-dial to the same peer does not collide with it. (R8) the retry helper object, which carries the attempt counter and is reset whenever a send returns, is created fresh for every mailbox (the value stored into the mailbox's field is an allocation or a constructor result): the per-peer lock then protects it, and traffic to a healthy peer cannot reset the count of an unreachable one. NOT decided: 'what it receives is a subsequence' under arbitrary cut points, duplicates after an ambiguous write error, recovery timing.",
 		Rules: []Rule{
-			{ID: "C14.R1", Min: 5, Desc: "Tell effect analysis (blocking primitives)", Fn: c14TellBlocks},
+			{ID: "C14.R1", Min: 4, Desc: "Tell effect analysis (blocking primitives)", Fn: c14TellBlocks},
 			{ID: "C14.R2", Min: 3, Desc: "failure reported; encode failure aborts", Fn: c14Reported},
 			{ID: "C14.R3", Min: 1, Desc: "frame consumption before re-arm", Fn: c14Consumption},
 			{ID: "C14.R4", Min: 4, Desc: "bounded retry", Fn: c14Retry},
@@ -754,16 +754,39 @@ func c14TellBlocks(p *Program, r *Report) {
 	}
 	sort.Slice(fns, func(i, j int) bool { return fns[i].String() < fns[j].String() })
 	n := 0
+	// one obligation per (blocking primitive, package): function names are not part of the identity (a rename must not turn
+	// a recorded finding into a new violation), a new kind of primitive or a new package is a new obligation
+	type grp struct {
+		pos   token.Pos
+		where []string
+		path  string
+	}
+	groups := map[string]*grp{}
+	var order []string
 	for _, fn := range fns {
 		for _, bs := range p.blockingSites(fn) {
 			n++
-			construct := fmt.Sprintf("Tell reaches %s in %s", bs.Kind, fnName(fn))
 			if bs.Kind == "(sync.WaitGroup).Wait" && fn.Name() == "GetRemotingMailboxCentral" {
-				r.Lookup(construct, bs.In.Pos(), "exception: one-time start-up barrier released unconditionally by the remoting server's OnLaunch")
+				r.Lookup(fmt.Sprintf("Tell reaches %s in %s", bs.Kind, fnName(fn)), bs.In.Pos(), "exception: one-time start-up barrier released unconditionally by the remoting server's OnLaunch")
 				continue
 			}
-			r.Violate(construct, bs.In.Pos(), "blocking primitive synchronously reachable from Tell via "+p.pathTo(steps, fn)+": the caller's goroutine (an actor's mailbox) stalls while it blocks, although Tell is documented as never blocking")
+			pk := ""
+			if fp := fnPkg(fn); fp != nil {
+				pk = relPkg(fp)
+			}
+			construct := fmt.Sprintf("Tell reaches %s in package %s", bs.Kind, pk)
+			g := groups[construct]
+			if g == nil {
+				g = &grp{pos: bs.In.Pos(), path: p.pathTo(steps, fn)}
+				groups[construct] = g
+				order = append(order, construct)
+			}
+			g.where = append(g.where, fnName(fn))
 		}
+	}
+	for _, construct := range order {
+		g := groups[construct]
+		r.Violate(construct, g.pos, fmt.Sprintf("blocking primitive synchronously reachable from Tell (in %s; e.g. via %s): the caller's goroutine (an actor's mailbox) stalls while it blocks, although Tell is documented as never blocking", strings.Join(g.where, ", "), g.path))
 	}
 	r.Note("functions synchronously reachable from Tell: %d", len(steps))
 	if n == 0 {
